@@ -50,6 +50,12 @@ unsigned __real_sleep(unsigned);
 int __real_sched_yield(void);
 long __real_syscall(long n, ...);
 int __real_open(const char *path, int flags, ...);
+unsigned int __real__ZNSt13random_device9_M_getvalEv(void *self);
+uint32_t __real_arc4random(void);
+void __real_arc4random_buf(void *buf, size_t n);
+uint32_t __real_arc4random_uniform(uint32_t upper);
+int __real_getentropy(void *buf, size_t n);
+ssize_t __real_getrandom(void *buf, size_t n, unsigned flags);
 int __real_open64(const char *path, int flags, ...);
 int __real_sigprocmask(int how, const sigset_t *set, sigset_t *old);
 int __real_pthread_sigmask(int how, const sigset_t *set, sigset_t *old);
@@ -133,6 +139,7 @@ static unsigned g_fmask = 0;
 static unsigned g_frate[16];
 static long g_late_max_ms = 50;
 static long g_stall_max_ms = 20;
+static uint64_t g_plan_seed = 0, g_entropy_state = 0;
 static std::set<int> *g_fault_fds;
 static std::set<int> *g_nofault_fds;
 static bool g_fault_all_socks = false;
@@ -505,6 +512,8 @@ void start(const Plan &plan) {
   g_frate[kind_index(F_STALL)] = 25;
   g_frate[kind_index(F_OPEN_FAIL)] = 300;
 
+  g_plan_seed = plan.seed;
+  g_entropy_state = 0;
   g_sched = plan.sched;
   g_srng = Rng(g_sched.seed, "schedule");
   g_pct_points.clear();
@@ -856,6 +865,23 @@ long __wrap_syscall(long n, ...) {
   if (n == SYS_gettid && g_active && t_self != nullptr) return 100000 + t_self->id;
   return __real_syscall(n, a1, a2, a3, a4, a5, a6);
 }
+
+// Entropy: code that asks the system for random numbers (std::random_device, transaction ids, ...) gets them from a
+// stream derived from the plan seed, so that a run stays a function of its seed.
+static uint64_t entropy_next() {
+  if (g_entropy_state == 0) g_entropy_state = 0x9e3779b97f4a7c15ULL ^ (g_plan_seed + 0x632be59bd9b4e019ULL);
+  uint64_t z = (g_entropy_state += 0x9e3779b97f4a7c15ULL);
+  z = (z ^ (z >> 30)) * 0xbf58476d1ce4e5b9ULL; z = (z ^ (z >> 27)) * 0x94d049bb133111ebULL;
+  return z ^ (z >> 31);
+}
+static void entropy_fill(void *buf, size_t n) { unsigned char *p = static_cast<unsigned char *>(buf); for (size_t i = 0; i < n; ++i) p[i] = (unsigned char)(entropy_next() >> 24); }
+uint32_t __wrap_arc4random(void) { if (!g_active) return __real_arc4random(); return (uint32_t)(entropy_next() >> 16); }
+void __wrap_arc4random_buf(void *buf, size_t n) { if (!g_active) { __real_arc4random_buf(buf, n); return; } entropy_fill(buf, n); }
+uint32_t __wrap_arc4random_uniform(uint32_t upper) { if (!g_active) return __real_arc4random_uniform(upper); return upper ? (uint32_t)((entropy_next() >> 16) % upper) : 0; }
+// std::random_device::_M_getval(): libstdc++ reads the CPU's RDSEED/RDRAND directly, which no libc seam sees
+unsigned int __wrap__ZNSt13random_device9_M_getvalEv(void *self) { if (!g_active) return __real__ZNSt13random_device9_M_getvalEv(self); return (unsigned int)(entropy_next() >> 16); }
+int __wrap_getentropy(void *buf, size_t n) { if (!g_active) return __real_getentropy(buf, n); entropy_fill(buf, n); return 0; }
+ssize_t __wrap_getrandom(void *buf, size_t n, unsigned flags) { if (!g_active) return __real_getrandom(buf, n, flags); entropy_fill(buf, n); return (ssize_t)n; }
 
 // Creating or opening a file can fail for reasons outside the program (descriptor table full): a transient EMFILE.
 static bool open_fault(const char *path) {
